@@ -163,6 +163,45 @@ def complex_flags(ctx, m):
                     "factors of dtype %s and %s give an operator of dtype %s, expected %s" % (a, b, got, want))
 
 
+def real_on_complex(ctx):
+    """A real operator applied to a complex vector / matrix acts on real and imaginary part: whatever the operator's
+    precision, the complex operand must not be cast to the operator's real dtype as a whole."""
+    r = ctx.rule("REAL-ON-COMPLEX", "dense / sparse _matmat: for a real operator (single or double precision) and a complex operand the executed path casts only real(x) / imag(x) to the operator's dtype, never x itself (a cast of a complex array to a real dtype drops the imaginary part)", 4)
+    m = ctx.repo.mod(DO)
+    n = 0
+    for cname, dts in (("DenseDiscreteBoundaryOperator", ("float32", "float64")), ("SparseDiscreteBoundaryOperator", ("float64",)), ("GenericDiscreteBoundaryOperator", ("float32", "float64"))):
+        for mname in ("_matmat", "_matvec"):
+            if not m.has_fn("%s.%s" % (cname, mname)):
+                continue
+            fn = m.fn("%s.%s" % (cname, mname))
+            x = arg_names(fn)[1]
+            for dt in dts:
+                env = {"self.dtype": dt, "self._impl.dtype": dt, "self._dtype": dt, "self._is_complex": False}
+                for np_ in ("_np", "np"):
+                    env["%s.iscomplexobj(%s)" % (np_, x)] = True
+                    for rep in ("self.to_dense()", "self.to_sparse()", "self._impl", "self.A"):
+                        env["%s.iscomplexobj(%s)" % (np_, rep)] = False
+                try:
+                    kind, node = dispatch.select(fn, env)
+                except AnalysisError as e:
+                    raise AnalysisError("%s.%s: the path for a real operator and a complex operand is not decided: %s" % (cname, mname, e))
+                if kind != "return" or node is None:
+                    continue
+                lossy = []
+                for c in ast.walk(node):
+                    if isinstance(c, ast.Call) and isinstance(c.func, ast.Attribute) and c.func.attr == "astype" and c.args and unparse(c.args[0]).replace(" ", "") in ("self.dtype", "self._dtype", "self._impl.dtype", repr(dt), '"%s"' % dt):
+                        recv = c.func.value
+                        parts = [y for y in ast.walk(recv) if isinstance(y, ast.Call) and unparse(y.func).split(".")[-1] in ("real", "imag")]
+                        inside = {id(z) for p in parts for z in ast.walk(p)}
+                        if any(isinstance(z, ast.Name) and z.id == x and id(z) not in inside for z in ast.walk(recv)):
+                            lossy.append(unparse(c)[:60])
+                n += 1
+                r.check(not lossy, "%s.%s, %s operator" % (cname, mname, dt), DO, "%s.%s" % (cname, mname), fn.lineno, "complex operand of a real %s operator" % dt,
+                        "for a real operator of dtype %s and a complex operand the method returns `%s`: %s casts the complex operand to the real dtype, its imaginary part is dropped" % (dt, unparse(node)[:80], lossy))
+    if n < 4:
+        raise AnalysisError("real-on-complex: only %d (class, dtype) paths judged" % n)
+
+
 def _tc(n, cls):
     """(base text, transposed?, conjugated?) of a representation expression: attribute / method chains over one base
     with .T (the loader's spelling of .transpose()) and .conjugate() / .conj() toggling the two flags."""
